@@ -376,10 +376,12 @@ def stepRequest (test : ReqTest) (lines : List Str) (result render : Except Exc 
 inductive Request where
   | lines (ls : List Str) (result : Except Exc Unit) (render : Except Exc Unit)
   | interrupt
+  | raises (x : Exc)      -- `tty` itself raises (`readline` decoding what was typed, the helper process, …)
 
 def stepReq (test : ReqTest) : Request → Status
   | .lines ls r d => stepRequest test ls r d
   | .interrupt => step .interrupt
+  | .raises x => outer x           -- `lines = tty(prompt)` stands outside the inner `try`
 
 /-- final status and number of requests consumed -/
 def runRequests (test : ReqTest) : List Request → Status × Nat
